@@ -318,6 +318,34 @@ func describe(t reflect.Type, tagKey string) *stype {
 	return st
 }
 
+// elemStruct: the struct type of the elements / entries / the value of a field
+// that holds structs (nil for the other kinds and for inline fields).
+func (f *field) elemStruct() *stype {
+	switch f.kind {
+	case kSliceStruct, kMapStruct, kMapPtrStruct:
+		return f.sub
+	case kStruct, kPtrStruct:
+		if !f.inline {
+			return f.sub
+		}
+	case kArrayComp:
+		if f.elem.kind == kStruct {
+			return f.elem.sub
+		}
+	}
+	return nil
+}
+
+// inlinesPointer: one of the fields of st is a pointer to a struct inlined into it.
+func (st *stype) inlinesPointer() bool {
+	for _, f := range st.fields {
+		if f.kind == kPtrStruct && f.inline && !f.ignore && !f.unexported {
+			return true
+		}
+	}
+	return false
+}
+
 // countLeaves counts the configurable leaf fields reachable by value, pointer
 // and inline nesting.
 func (st *stype) countLeaves() int {
@@ -464,6 +492,10 @@ func (g *tgen) primStruct() reflect.Type {
 // value always exists before Unpack: top level, by-value and inline nesting,
 // because Unpack also validates what it does not touch).
 func (g *tgen) structType(depth, nf int, validators bool) reflect.Type {
+	return reflect.StructOf(g.structFields(depth, nf, validators))
+}
+
+func (g *tgen) structFields(depth, nf int, validators bool) []reflect.StructField {
 	r := g.r
 	var fs []reflect.StructField
 	for i := 0; i < nf; i++ {
@@ -603,7 +635,103 @@ func (g *tgen) structType(depth, nf int, validators bool) reflect.Type {
 		sf.Tag = g.tag(num, opts, altOpts, extra)
 		fs = append(fs, sf)
 	}
-	return reflect.StructOf(fs)
+	return fs
+}
+
+// carrierFields: 2-4 fields that hold values of ONE struct type (the carrier:
+// 1-2 primitive fields and, at a random place among them, a pointer to a
+// struct of primitives inlined into it) -- as a list (of values / of pointers),
+// a fixed-size array, a map (of values / of pointers), by value, by pointer --
+// and at most one field inlining a pointer to the same struct of primitives
+// into the enclosing struct itself. One Unpack call then meets several nil
+// inline pointers of one struct type: the elements of one list, the entries of
+// one map, sibling fields. The inlined struct holds primitives only: it never
+// reaches its own type again.
+func (g *tgen) carrierFields() []reflect.StructField {
+	r := g.r
+	common := g.primStruct()
+	inlineTag := func(num int) reflect.StructTag {
+		opts := func() []string {
+			o := []string{[]string{"inline", "inline", "squash"}[r.Intn(3)]}
+			if r.Intn(5) == 0 {
+				o = append(o, structPols[r.Intn(len(structPols))])
+			}
+			return o
+		}
+		o := opts()
+		var ao []string
+		if g.twoTags {
+			ao = opts()
+		}
+		return g.tag(num, o, ao, "")
+	}
+	var ifs []reflect.StructField
+	for i, n := 0, 1+r.Intn(2); i < n; i++ {
+		g.n++
+		ifs = append(ifs, reflect.StructField{Name: g.goName(g.n), Type: primTypes[r.Intn(len(primTypes))], Tag: g.tag(g.n, nil, nil, "")})
+	}
+	g.n++
+	inl := reflect.StructField{Name: g.goName(g.n), Type: reflect.PtrTo(common), Tag: inlineTag(g.n)}
+	at := r.Intn(len(ifs) + 1)
+	ifs = append(ifs[:at], append([]reflect.StructField{inl}, ifs[at:]...)...)
+	item := reflect.StructOf(ifs)
+
+	var out []reflect.StructField
+	topInline := false
+	for i, n := 0, 2+r.Intn(3); i < n; i++ {
+		g.n++
+		num := g.n
+		sf := reflect.StructField{Name: g.goName(num)}
+		var pool []string
+		polNum, polDen := 0, 1
+		x := r.Intn(12)
+		if x == 11 && topInline {
+			x = r.Intn(4)
+		}
+		switch x {
+		case 0, 1, 2:
+			sf.Type = reflect.SliceOf(item)
+			pool, polNum, polDen = listPols, 1, 2
+		case 3:
+			sf.Type = reflect.SliceOf(reflect.PtrTo(item))
+			pool, polNum, polDen = listPols, 1, 2
+		case 4, 5:
+			sf.Type = reflect.ArrayOf(2+r.Intn(2), item)
+		case 6:
+			sf.Type = reflect.MapOf(tString, item)
+			pool, polNum, polDen = listPols, 1, 3
+		case 7:
+			sf.Type = reflect.MapOf(tString, reflect.PtrTo(item))
+			pool, polNum, polDen = listPols, 1, 3
+		case 8, 9:
+			sf.Type = item
+			pool, polNum, polDen = structPols, 1, 5
+		case 10:
+			sf.Type = reflect.PtrTo(item)
+			pool, polNum, polDen = structPols, 1, 5
+		default:
+			// the enclosing struct inlines a pointer to the same struct of primitives
+			topInline = true
+			sf.Type = reflect.PtrTo(common)
+			sf.Tag = inlineTag(num)
+			out = append(out, sf)
+			continue
+		}
+		opts := func() []string {
+			if pool != nil && r.Intn(polDen) < polNum {
+				return []string{pool[r.Intn(len(pool))]}
+			}
+			return nil
+		}
+		o := opts()
+		var ao []string
+		if g.twoTags {
+			ao = opts()
+		}
+		sf.Tag = g.tag(num, o, ao, "")
+		out = append(out, sf)
+	}
+	return out
 }
 
 // genTop draws the type of a case: 1 in 8 the hand-written LibTop, 1 in 8 one
@@ -621,5 +749,15 @@ func genTop(r *rand.Rand) reflect.Type {
 		}
 	}
 	g := &tgen{r: r, twoTags: r.Intn(2) == 0}
-	return g.structType(2, 3+r.Intn(6), true)
+	if r.Intn(3) > 0 {
+		return g.structType(2, 3+r.Intn(6), true)
+	}
+	// 1 in 3: fewer ordinary fields, and 2-4 fields holding values of one
+	// carrier type (see carrierFields) at random places among them
+	fs := g.structFields(2, 2+r.Intn(4), true)
+	for _, cf := range g.carrierFields() {
+		at := r.Intn(len(fs) + 1)
+		fs = append(fs[:at], append([]reflect.StructField{cf}, fs[at:]...)...)
+	}
+	return reflect.StructOf(fs)
 }
